@@ -71,6 +71,7 @@ mpn_sb_div_qr (mp_ptr qp,
       np--;
       if (UNLIKELY (n1 == d1) && np[1] == d0)
 	{
+	  VERIF_EV ("sbdiv.special", nn, dn + 2, i, 0);
 	  q = GMP_NUMB_MASK;
 	  mpn_submul_1 (np - dn, dp, dn + 2, q);
 	  n1 = np[1];		/* update n1, last loop's value will now be invalid */
@@ -87,6 +88,7 @@ mpn_sb_div_qr (mp_ptr qp,
 
 	  if (UNLIKELY (cy != 0))
 	    {
+	      VERIF_EV ("sbdiv.addback", nn, dn + 2, i, 0);
 	      n1 += d1 + mpn_add_n (np - dn, np - dn, dp, dn + 1);
          q--;
 	    }
